@@ -46,7 +46,7 @@ pub fn full_pieces(ev: Ev) -> &'static Vec<String> {
             v.push("2i".into());
             v.push("i".into());
         }
-        for s in ["<", ">", "=", "x", ".", "é", "\u{1F600}"] {
+        for s in ["<", ">", "=", "x", ".", "é", "\u{1F600}", "\u{feff}", "\u{200b}", "\u{ad}", "\u{2060}", "\u{200e}", "\u{0}"] {
             v.push(s.to_string());
         }
         // code points next to the non-ASCII characters of the vocabulary (a range test or an offset computation that is
